@@ -315,12 +315,22 @@ Proof.
   intros x y ->; reflexivity.
 Qed.
 
-(* the hypotheses are satisfiable: Z with deg x = (if x = 0 then -1 else 0) *)
+(* the hypotheses are satisfiable TOGETHER with 0 <= dk < deg M: the ring Z with deg x = floor(log2 |x|) (deg 0 = -1) and the
+   truncated quotient; deg 1009 = 9, and ratrecon with dk = 4 reconstructs 289 = 5/7 mod 1009 (7 * 289 = 2 * 1009 + 5, deg 5 = 2).
+   (The former example, deg x in {-1, 0}, could not satisfy 0 <= dk < deg M.) *)
+Definition zdeg (x : Z) : Z := if x =? 0 then -1 else Z.log2 (Z.abs x).
 Example poly_hyps_example :
-  let deg := fun x : Z => if x =? 0 then -1 else 0 in
-  ring_theory 0 1 Z.add Z.mul Z.sub Z.opp (@eq Z) /\ deg 0 = -1 /\
-  (forall c x : Z, deg (c * x) < deg x -> c * x = 0).
+  ring_theory 0 1 Z.add Z.mul Z.sub Z.opp (@eq Z) /\ (zdeg 0 = -1) /\
+  (forall c x : Z, zdeg (c * x) < zdeg x -> c * x = 0) /\
+  (0 <= 4 < zdeg 1009) /\
+  pratrecon (GOps Z 0 1 Z.mul Z.sub zdeg Z.quot (fun _ _ => 0) (fun _ => true) (fun _ => 1)) 289 1009 4 = Some (true, 5, 7).
 Proof.
-  cbn. split; [exact InitialRing.Zth|]. split; [reflexivity|].
-  intros c x. destruct (Z.eqb_spec (c * x) 0); [auto|]. destruct (Z.eqb_spec x 0); lia.
+  split; [exact InitialRing.Zth|]. split; [reflexivity|]. split; [|split; [vm_compute; split; [discriminate|reflexivity]|vm_compute; reflexivity]].
+  intros c x. unfold zdeg.
+  destruct (Z.eqb_spec (c * x) 0) as [E|E]; [auto|]. destruct (Z.eqb_spec x 0) as [X|X]; [subst; rewrite Z.mul_0_r in E; congruence|].
+  intros H. exfalso.
+  assert (Hc : c <> 0) by (intros ->; apply E; reflexivity).
+  assert (Z.abs x <= Z.abs (c * x)).
+  { rewrite Z.abs_mul. assert (1 <= Z.abs c) by lia. assert (0 <= Z.abs x) by lia. nia. }
+  pose proof (Z.log2_le_mono _ _ H0). lia.
 Qed.
